@@ -1,5 +1,6 @@
 // drv_cm.cpp — correspondence harness for count_min_sketch<int64_t> (C14).
 #include "common.hpp"
+#include <sstream>
 #define private public
 #define protected public
 #include "count_min.hpp"
@@ -43,6 +44,21 @@ static void handler(const Line& t, Out& o) {
     cm_t& s = get(t.at(1));
     o.R(s.get_total_weight());
     for (auto it = s.begin(); it != s.end(); ++it) o.R(*it);
+    break; }
+  case 6: { // r2 := deserialize(serialize r) ; path 0 = bytes, 1 = stream ; R: 1 seed row-seeds
+    cm_t& a = get(t.at(1)); const uint64_t seed = a.get_seed();
+    std::unique_ptr<cm_t> p;
+    if (t.size() > 3 && t.at(3) == 1) {
+      std::stringstream ss(std::ios::in | std::ios::out | std::ios::binary);
+      a.serialize(ss);
+      p.reset(new cm_t(cm_t::deserialize(ss, seed)));
+    } else {
+      auto bytes = a.serialize();
+      p.reset(new cm_t(cm_t::deserialize(bytes.data(), bytes.size(), seed)));
+    }
+    o.R(1); o.R((I)p->get_seed());
+    for (uint64_t s : p->hash_seeds) o.R((I)s);
+    regs[(long)t.at(2)] = std::move(p);
     break; }
   default: o.R(-2);
   }
